@@ -111,7 +111,7 @@ def one_char_literals(rng, n):
                r"b'\377'", r"b' '", r"b'\t'", r"b'\x7f'", r"b'\101'", r"rb'x'", r'b"""z"""']
     forms_s = [r"'A'", r"'\n'", r"'\0'", r"'\xe9'", r"'\xff'", r"'\u20ac'", r"'\U0001f600'", r"'\ud800'", r"'\udfff'",
                r"'\N{SNOWMAN}'", "'é'", "'€'", "'\U0001F600'", r"'\U0010ffff'", r"'\''", r"'\\'", r"'\x00'", r"'\uffff'",
-               r"'\400'", r"u'\x7f'", r'"""x"""']
+               r"u'\400'", r"u'\x7f'", r'"""x"""']
     for i in range(n):
         src = rng.choice(forms_b if i % 2 else forms_s)
         ok, v = strlits.evaluate(src)
